@@ -412,7 +412,8 @@ STANDINS = {
              'assumed_contract': 'none assumed: every Window operation is under contract; this executes the real Window against an executable twin of the specification so that a change '
                                  'that makes the annotations inapplicable still meets a concrete check',
              'bound': 'read side: file length 0..13 x chunk {1,2,3,4,5,8} x window size 1..4 x every sequence of 0..5 operations over {fill, remove(1), remove(2), remove(len), '
-                      'remove(len+1)}; write side: window size 1..3 x every sequence of 0..6 operations over {add x3 payloads, empty} - about 1.3 million sequences'}],
+                      'remove(len+1)}; write side: window size 1..3 x every sequence of 0..6 operations over {add x3 payloads, empty}; six mixed histories incl. windows of 1100 and 2050 pieces; '
+                      'four windows over /dev/full whose empty() must report the write error - about 1.3 million sequences (C01: read side and mixed only, C02: write side, mixed and errors)'}],
     'C17': [{'name': 'bounded_config', 'bin': 'bounded_config', 'extract': False,
              'assumed_contract': 'none assumed: Config::new / ClientConfig::new are under contract; this executes them against an executable twin of the fold specification so that a '
                                  'change that makes the annotations inapplicable (new helper, restructured loop) still meets a concrete check',
@@ -422,13 +423,13 @@ STANDINS = {
              'assumed_contract': 'interoperation of the bundled client and server (Client::upload / Client::download are outside Verus; two endpoints over UDP are not a function contract): '
                                  'byte-identical files on both sides, download stored under the base name in the receive directory, refusals create no file',
              'bound': 'real Client against real Server on loopback: {download, upload} x blksize {8,512,1468} x windowsize {1,3} x timeout 2 x 8 file sizes around block/window '
-                      'boundaries x {multi-port, single-port}; nested and Windows-style request path; refusals (missing file, existing file, read-only); thorough: one download of '
+                      'boundaries x {multi-port, single-port}; nested and Windows-style request path; one name downloaded three times with shrinking content; refusals (missing file, existing file, read-only); one download of '
                       '65538 blocks with windowsize 64 (about 200 cases)'}],
 }
 
 
-for _p in ('C01', 'C02'):
-    STANDINS.setdefault(_p, []).append(dict(STANDINS['C18'][0]))     # the Window twin also guards the read side of C01 and the write side of C02
+for _p, _m in (('C01', 'read'), ('C02', 'write')):                  # the Window twin also guards the read side of C01 and the write side of C02
+    STANDINS.setdefault(_p, []).append(dict(STANDINS['C18'][0], args={'quick': [_m], 'thorough': [_m]}))
 for _p in ('C01', 'C02', 'C04', 'C06', 'C07', 'C08', 'C13', 'C15', 'C16'):
     STANDINS.setdefault(_p, []).append(
         {'name': 'scenarios', 'bin': 'scenarios', 'extract': False, 'confirm': True, 'args': {'quick': [_p, '--quick'], 'thorough': [_p]},
@@ -436,7 +437,7 @@ for _p in ('C01', 'C02', 'C04', 'C06', 'C07', 'C08', 'C13', 'C15', 'C16'):
                              'specification predicates, so that a change that makes the annotations inapplicable still meets a concrete check',
          'bound': 'file lengths around block/window boundaries x windowsize 1..4 x repeat {1,3} x every single fault (lost / duplicated / stale / swapped datagram at each position); '
                   'transfers of more than 65536 blocks with a fault at the wrap; window sizes 32769 and 65535; 8 and 255 copies per datagram; uploads onto a longer existing file; '
-                  'aborted uploads at every point (quick tier: a subset)'})
+                  'aborted uploads at every point; C13: uploads onto a full disk (every write fails) (quick tier: a subset)'})
 for _p in ('C03', 'C05', 'C06', 'C07', 'C09', 'C13'):
     STANDINS.setdefault(_p, []).append(
         {'name': 'listener', 'bin': 'listener', 'extract': False, 'confirm': True, 'tiers': ('thorough',), 'args': {'quick': [_p], 'thorough': [_p]},
